@@ -15,6 +15,7 @@
 extern ExpHeader *VH_EXPANDERS;
 int vh_meminit_calls, vh_workinit_calls, vh_workfree_calls;
 int_t vh_nzlumax, vh_nzumax, vh_nzlmax;
+int_t vh_map0[64], vh_map_n;   /* map_in_sup[] as dPresetMap left it (slot starts), for the C05 slot-bound hook */
 
 float VH_MEMINIT(int_t n, int_t annz, superlumt_options_t *o, SuperMatrix *L, SuperMatrix *U,
                  GlobalLU_t *Glu)
@@ -42,6 +43,7 @@ float VH_MEMINIT(int_t n, int_t annz, superlumt_options_t *o, SuperMatrix *L, Su
     Glu->usub = (int_t *)malloc(nzumax * sizeof(int_t));
     Glu->nzlmax = nzlmax; Glu->nzumax = nzumax; Glu->nzlumax = nzlumax;
     vh_nzlumax = nzlumax; vh_nzumax = nzumax; vh_nzlmax = nzlmax;
+    { int_t j; vh_map_n = n; for (j = 0; j <= n && j < 64; ++j) vh_map0[j] = Glu->map_in_sup[j]; }
     return 0;
 }
 
@@ -64,4 +66,25 @@ void VH_WORKFREE(int_t *iwork, VH_REAL *dwork, GlobalLU_t *Glu)
     free(iwork);
     free(dwork);
 }
+#ifdef VH_OWN_LUSUP
+/* hook H1 (pmemory.c, Glu_alloc case LUSUP): C05 -- no L supernode outgrows the slot reserved for it.
+   Static scheme: the slot of the H-supernode / relaxed supernode led by fsupc ends where the next leading
+   column's slot starts (map_in_sup as dPresetMap left it; non-leading columns hold negative offsets).
+   Dynamic scheme: slots are handed out on demand; the array bound is checked here and the disjointness
+   of all column extents by WF_LU at the end. */
+int vh_lusup_calls;
+void slu_mt_verif_lusup(int_t jcol, int_t fsupc, int_t new_end, pxgstrf_shared_t *sh)
+{
+    GlobalLU_t *Glu = sh->Glu;
+    ++vh_lusup_calls;
+    vh_assert(fsupc >= 0 && fsupc <= jcol && jcol < vh_map_n, "LUSUP request for a column of the matrix");
+    vh_assert(new_end <= Glu->nzlumax, "L supernode storage stays inside the lusup array");
+    if (Glu->dynamic_snode_bound == NO) {
+        int_t j, end = vh_map0[vh_map_n];
+        for (j = vh_map_n - 1; j > fsupc; --j) if (vh_map0[j] >= 0) end = vh_map0[j];
+        vh_assert(vh_map0[fsupc] >= 0, "requests are charged to the leading column of a reserved slot");
+        vh_assert(new_end <= end, "no L supernode outgrows the slot reserved for it (predicted column counts dominate the actual L)");
+    }
+}
+#endif
 #endif
